@@ -570,7 +570,38 @@ func run(c *props.Ctx) {
 				Replay: replayDoc{Kind: "seq", Custom: custom, Quick: c.Quick(), Path: v.Path, Ops: v.Ops}})
 		}
 	}
+	// long holds: the same alphabet with a 90 s tick instead of the 7 ms one (an entry held for longer than the
+	// default statistic maximum of 60 s completes with its own response time), to depth 4
+	if c.Mine(1) {
+		s := &scen{Custom: false, Quick: true, ops: longOps()}
+		res := seq.Explore(s, seq.Options{Depth: 4, Deadline: c.Deadline, Classify: signature, MaxStates: 1000000})
+		c.R.States += int64(res.States)
+		c.R.Transitions += res.Transitions
+		c.R.Evaluations += res.Transitions
+		c.R.Traces += res.Transitions
+		c.R.Bounds["long_hold_depth"] = 4
+		for o := range res.Obs {
+			c.R.Outcome("long|" + o)
+		}
+		if res.CapHit != "" && res.CapHit != "violation limit" {
+			c.R.Cap("long holds: " + res.CapHit)
+		}
+		for _, v := range res.Violations {
+			c.R.Violate(report.Violation{Signature: signature(v.What), What: v.What, Scenario: "long holds: " + strings.Join(v.Ops, " "),
+				Replay: replayDoc{Kind: "seq-long", Custom: false, Quick: true, Path: v.Path, Ops: v.Ops}})
+		}
+	}
 	runConc(c)
+}
+
+func longOps() []opDef {
+	ops := mkOps(false, true)
+	for i := range ops {
+		if ops[i].Kind == okTick && ops[i].Tick == 7 {
+			ops[i].Tick = 90000
+		}
+	}
+	return ops
 }
 
 func replay(c *props.Ctx, raw json.RawMessage) (bool, string) {
@@ -582,6 +613,9 @@ func replay(c *props.Ctx, raw json.RawMessage) (bool, string) {
 		return replayConc(raw)
 	}
 	s := &scen{Custom: d.Custom, Quick: d.Quick, ops: mkOps(d.Custom, d.Quick)}
+	if d.Kind == "seq-long" {
+		s.ops = longOps()
+	}
 	w := seq.Replay(s, d.Path)
 	return w != "", w
 }
